@@ -316,6 +316,8 @@ func tLen(x *T) *T {
 		return tLen(x.A[0])
 	case "nil":
 		return tConst(0)
+	case "bytes": // append(data, b0, b1, …): one byte per operand
+		return tConst(int64(len(x.A)))
 	}
 	return mk("len", "", x)
 }
